@@ -987,7 +987,9 @@ func translateS(g *sGroup, t *sTarget) (text string, reason string) {
 		if r := recover(); r != nil {
 			te, ok := r.(transErr)
 			if !ok {
-				panic(r)
+				// an internal error of the translator on unforeseen input is a verdict about the function
+				// ("not translated"), never a crash of the check
+				te = transErr{fmt.Sprintf("internal error of the translator: %v", r)}
 			}
 			reason = te.msg
 			sShapes[key] = sshape{}
@@ -1004,9 +1006,40 @@ func translateS(g *sGroup, t *sTarget) (text string, reason string) {
 	return text, ""
 }
 
+func containsStr(l []string, s string) bool {
+	for _, x := range l {
+		if x == s {
+			return true
+		}
+	}
+	return false
+}
+
 // emitGroup: record, env, targets
-func emitGroup(g *sGroup, failed *[]string, all *[]string) string {
+func emitGroup(g *sGroup, failed *[]string, all *[]string) (out string) {
 	sEnvFns, sEnvIdx = nil, map[string]int{}
+	defer func() {
+		// the receiver record itself cannot be built (type missing, embedded field, ...): every target of the group
+		// is untranslatable
+		if r := recover(); r != nil {
+			msg := fmt.Sprint(r)
+			if te, ok := r.(transErr); ok {
+				msg = te.msg
+			}
+			fmt.Fprintf(os.Stderr, "gotrans: group %s not translated: %s\n", g.Recv, msg)
+			out = ""
+			for i := range g.Targets {
+				t := &g.Targets[i]
+				if !containsStr(*all, t.Lean) {
+					*all = append(*all, t.Lean)
+				}
+				if !containsStr(*failed, t.Lean) {
+					*failed = append(*failed, t.Lean)
+				}
+				out += fmt.Sprintf("/-- `%s`: NOT TRANSLATED (%s) -/\ndef %s : Untranslatable :=\n  ⟨%q⟩\n\n", t.Func, oneLine(msg), t.Lean, oneLine(msg))
+			}
+		}
+	}()
 	var b strings.Builder
 	var bodies []string
 	for i := range g.Targets {
